@@ -23,8 +23,6 @@ Section Dist.
     ((1 # 2) * massp (fun vp => Qeq_bool (snd vp) px) + massp (fun vp => q_ltb (snd vp) px))%Q.
 End Dist.
 
-Fixpoint qsum_red (l : list Q) : Q := match l with [] => 0%Q | x :: r => Qred (x + qsum_red r) end.
-
 Fixpoint index_from (i step : Z) (l : list Q) : list (Z * Q) :=
   match l with [] => [] | w :: r => (i, w) :: index_from (i + step) step r end.
 
@@ -38,7 +36,7 @@ Definition lh_dist (n nA : Z) : option (Z * list (Z * Q)) :=
   bind (lh_mode n nA nB parity) (fun mode =>
   bind (stream_prefix (pRU_next_idx n nA nB) (red_next (pRU_next_val n nA nB)) (Z.to_nat ((nA - mode) / 2)) mode 1%Q) (fun R =>
   bind (stream_prefix (pLU_next_idx n nA nB) (red_next (pLU_next_val n nA nB)) (Z.to_nat ((mode - parity) / 2)) mode 1%Q) (fun L =>
-    let pN := Qred (qsum_red R + qsum_red L - 1)%Q in
+    let pN := Qred (qsum R + qsum L - 1)%Q in
     Some (mode, map (fun vp => (fst vp, Qred (snd vp / pN))) (index_from mode 2 R ++ index_from (mode - 2) (-2) (tl L))))))).
 
 (** hardyWeinbergTest(nHomRef, nHet, nHomVar, oneSided) = (het_freq_hwe, p_value) in exact arithmetic *)
